@@ -201,15 +201,6 @@ namespace hist
                 max_node_ = 96; // keeps the bucket array (one list per size) small
             if (max_node_ > 512)
                 max_node_ = 512;
-            // exclusion of recorded finding F21 (see known_findings.json): with fences a
-            // collection with a single bucket cannot reserve its default share from a fresh block
-            // of the same size (static/virtual sources)
-            if (fence_size > 0 && (Up::info.is_static || Up::info.is_virtual)
-                && n_buckets(max_node_) == 1 && !c.allow_known)
-            {
-                max_node_ = 2 * ref_pow2_ceil(min_elem) + 1;
-                ++c.excluded;
-            }
             size_t nb     = n_buckets(max_node_);
             size_t top    = bucket_size(max_node_);
             // documented: max_node_size smaller than block_size / number of pools; the block must
